@@ -37,8 +37,9 @@ CLAIMED = {
              '(kernel evaluation over the whole domain: the traversal has no input but the dimensions, so this covers all '
              'codeword vectors); C07_bijection -- exactly ntotal(s) codewords x 8 modules, all in range, NoDup, left-over modules '
              'exactly the 2x2 corner of 12/16/20/24. The traversal model is tied to the code exhaustively (all 48 tables through '
-             'traverse_mut with a tagging Bit type at every run); value loops (new_with_codewords, codewords) by correspondence '
-             'and a direct Annex-F oracle. Partial: read-after-write identity for all values is not yet a Coq theorem.',
+             'traverse_mut with a tagging Bit type at every run); C07_values -- for every size and EVERY codeword vector, codewords() inverts '
+             'new_with_codewords() and the left-over corner modules carry the fixed pattern (generic finite-map array lemmas on top of the '
+             'bijection). Value loops also tied by correspondence and a direct Annex-F oracle.',
         design_ref='DESIGN.md 6/C07',
         note='Trusted: Coq kernel + vm_compute, Spec/AnnexF.v as transcription of the standard, extraction, harness, hook verif_entries. No axioms.',
         technique='Coq proof by kernel evaluation over the complete finite domain (48 sizes) against a transcribed Annex F; exhaustive correspondence of the traversal'),
@@ -130,6 +131,32 @@ CLAIMED = {
         design_ref='DESIGN.md 6/C18',
         note='Trusted: Coq kernel, extraction, harness, hooks (selected cost, sort trace); refdec.py. No axioms.',
         technique='Coq proof: planner loop invariant for the plan shape; per-case agreement oracle (plan vs reference-decoded latches vs predicted size) on model-tied implementation runs'),
+    'C01': dict(
+        text='Theorem C01_symbol_layer (Coq, axiom-free): for every size and EVERY data codeword vector of the symbol\'s capacity, rendering '
+             'the symbol from data + error codewords (placement, fixed corner pattern, finder/clock/alignment) and decoding the pixels '
+             '(strict parsing, placement read-out, error correction) hands exactly the data codewords to the data decoder -- composition of '
+             'C06, C07 (table, bijection, values), C08 (parse of rendering) and the weight-0 case of the error decoder; so the two observation '
+             'routes of the property agree for every input and configuration (C01_routes_agree). PARTIAL: the data layer, '
+             'decode_data(data codewords of encode(x)) = x for every x and configuration, is the composition of C02 and C04 and is not yet a '
+             'theorem. The check evaluates it on every case: structured inputs x symbol lists x 63 mode subsets x macro x FNC1 are encoded and '
+             'decoded both ways by the implementation (and by the correspondence-tied model) and compared with the input. Eight round-trip '
+             'defects of the pinned tree were repaired (fix: commits).',
+        design_ref='DESIGN.md 6/C01',
+        note='Trusted: Coq kernel, translator, extraction, harness, sort-trace hook. No axioms.',
+        technique='Coq proof for the symbol layer (composition of C06/C07/C08/RS weight 0, all inputs); data layer: per-case round trip on model-tied implementation runs'),
+    'C03': dict(
+        category='fault_enumeration',
+        text='What is a theorem (Coq, axiom-free): C03_weight0 -- every codeword vector of every size passes the error decoder unchanged; '
+             'C03_success_is_codeword -- for ANY number of errors a successful result is a codeword (no half-corrected output, from C09). '
+             'What is NOT a theorem: completeness for weights 1..floor(k/2) (correctness of the Levinson-Durbin recursion with singular-case '
+             'step and of the Bjoerck-Pereyra solver; no formalisation exists, out of reach here) and uniqueness of the result within the '
+             'radius. The property is therefore decided by fault enumeration on the implementation, tied to the Coq model of the decoder by '
+             'correspondence on the same cases: all 48 sizes, a random codeword, error patterns of weight 0..t in every block (data region, EC '
+             'region, both, first and last codeword of each block, all blocks at full weight), every single position, and the same damage as '
+             'flipped modules through DataMatrix::decode. The index-mapping defect of multi-block sizes was repaired (fix: commit).',
+        design_ref='DESIGN.md 6/C03',
+        note='Level: fault enumeration with a correspondence-tied model; the two Coq theorems cover weight 0 and the shape of success only. No axioms.',
+        technique='fault enumeration over weights 0..t per block on all sizes + Coq theorems for weight 0 and success-implies-codeword'),
 }
 
 PENDING_REASON = 'check not built yet in this round (work proceeds in the order of DESIGN.md section 11); not claimed until its quick command exists'
